@@ -137,6 +137,10 @@ func wConfig(prop, tier string) *Config {
 		} else {
 			cfg.Phases = []Phase{{Name: "full-depth2", Roots: roots0123, Ops: ops, Depth: 2, Dev: 2}}
 		}
+		// every field of the vault's governance parameter message at its boundary values (the params record
+		// also CARRIES state: TotalValue), followed by vault activity
+		ssFollow := []string{"empty", "bond_lp1_D", "unbond_lp2_half", "llp_close_half_t1", "gap_1d"}
+		cfg.Phases = append(cfg.Phases, Phase{Name: "vault-params-boundaries-depth2", Roots: []string{"R1", "R3"}, Ops: append(autoCfgOpNamesFor("stablestake.MsgUpdateParams"), ssFollow...), First: autoCfgOpNamesFor("stablestake.MsgUpdateParams"), Second: ssFollow, Depth: 2, Dev: 3})
 	case "C08":
 		ops := []string{"llp_open_t1_x3", "llp_open_t1_x2_again", "llp_open_t2_x5", "llp_open_t3_x9", "llp_open_t3_dust", "llp_close_half_t1", "llp_close_full_t1", "llp_close_1share_t1", "llp_close_allbut1_t1", "llp_close_full_t2", "llp_update_sl_t1", "llp_bot_close_all", "llp_bot_stoploss_all",
 			"unbond_lp2_all", "price_atom_2", "price_atom_1", "price_atom_12", "swap_in_p1_usdc_atom_XL", "join_p1_all_t1", "exit_p1_10pct_lp1", "gap_30d", "cfg_llp_fallback_off", "empty"}
